@@ -99,6 +99,50 @@ def gen_chunk(args):
   return [rec] + bad
 
 
+def gen_written(seed, count, thorough):
+  """begin/end values as the IMSC writer prints them in the frame syntaxes (imsc.attributes.to_time_format), for times that
+  lie exactly on a frame boundary.  The SAME time is formatted under several writing contexts one after the other (as a
+  process that writes several documents does): whole seconds are boundaries at every integer rate, multiples of 1001 s at
+  every rate.  -> {rate name: [records {"kind": "wf", n0 (frame count), fr (count printed in the f syntax, -1 if the string
+  is not <digits>f), res (packed label printed in the hh:mm:ss:ff syntax, -1 if malformed), sep}]}"""
+  import random
+  from ttconv.imsc.attributes import TemporalAttributeWritingContext, to_time_format
+  from ttconv.imsc.config import TimeExpressionSyntaxEnum as TE
+  rng = random.Random(seed)
+  out = {r[0]: [] for r in RATES}
+  ctxs = {(r[0], syn): TemporalAttributeWritingContext(frame_rate=Fraction(r[1], r[2]), time_expression_syntax=syn)
+          for r in RATES for syn in (TE.frames, TE.clock_time_with_frames)}
+  times = []
+  for _ in range(count):
+    kind = rng.random()
+    if kind < 0.4:
+      times.append(Fraction(1001 * rng.randrange(0, 86)))               # a boundary at all eight rates
+    elif kind < 0.8:
+      times.append(Fraction(rng.randrange(0, 86400)))                   # a boundary at the integer rates
+    else:
+      r = rng.choice(RATES)
+      times.append(Fraction(rng.randrange(0, 2000000) * r[2], r[1]))    # a boundary at one rate (and maybe others)
+  for t in times:
+    for syn in (TE.frames, TE.clock_time_with_frames):
+      order = list(RATES)
+      rng.shuffle(order)
+      for name, num, den, fps, drop in order:
+        n = t * Fraction(num, den)
+        if n.denominator != 1:
+          continue
+        st = to_time_format(ctxs[(name, syn)], t)
+        rec = {"kind": "wf", "n0": int(n), "fr": -2, "res": -2, "sep": -2}
+        if syn is TE.frames:
+          rec["fr"] = int(st[:-1]) if re.fullmatch(r"[0-9]+f", st) else -1
+        else:
+          mm = _STR_RE.match(st)
+          pk_ = _pack([int(mm.group(1)), int(mm.group(2)), int(mm.group(3)), int(mm.group(5))]) if mm else None
+          rec["res"] = -1 if pk_ is None else pk_
+          rec["sep"] = (1 if mm.group(4) == ";" else 0) if mm else 2
+        out[name].append(rec)
+  return out
+
+
 def gen_adds(args):
   num, den, seed, count, maxn = args
   import random
@@ -325,6 +369,10 @@ def run(ctx):
     per_rate[name].extend(recs)
   for r, recs in zip(RATES, add_out):
     per_rate[r[0]].extend(recs)
+  # frame-syntax begin/end values written under interleaved contexts of different rates
+  for name, recs in gen_written(ctx.seed, 4000 if thorough else 400, thorough).items():
+    per_rate[name].extend(recs)
+    ctx.counts["written_frame_syntax_values"] = ctx.counts.get("written_frame_syntax_values", 0) + len(recs)
   # the millisecond quantiser does not depend on the rate: validated with the first rate's run
   per_rate[RATES[0][0]].extend(ms_records(ctx.rng, ctx.tier))
 
